@@ -22,8 +22,8 @@ from . import common, model, geom
 from .common import Reporter, run_tlc, MachineryError
 
 COMMENTS = [None, "", " x ", "#", "1 2 3", "C 0 0 0", "ångström ☃ 化学", "c" * 200, "3", "\t tab \t"]
-MODS = {"quick": {"xyz": 40, "conn": {2: 1, 3: 9, 4: 400, 5: 20000}},
-        "thorough": {"xyz": 1, "conn": {2: 1, 3: 1, 4: 15, 5: 600}}}
+MODS = {"quick": {"xyz": 40, "conn": {2: 1, 3: 9, 4: 400, 5: 20000}, "pairs": 5},
+        "thorough": {"xyz": 1, "conn": {2: 1, 3: 1, 4: 15, 5: 600}, "pairs": 1}}
 
 
 def tlc_cases(module, consts, prefix):
@@ -156,8 +156,9 @@ def run(tier):
     states = res1.distinct
     gen = res1.generated
     bond_sets = set()
-    for na, mod in MODS[tier]["conn"].items():
-        ks, res2 = tlc_cases("MC_Conn", {"NAtoms": na, "SampleMod": mod}, "K")
+    jobs = [(na, mod, "FALSE") for na, mod in MODS[tier]["conn"].items()] + [(2, MODS[tier]["pairs"], "TRUE")]
+    for na, mod, pairmode in jobs:
+        ks, res2 = tlc_cases("MC_Conn", {"NAtoms": na, "SampleMod": mod, "PairMode": pairmode}, "K")
         states += res2.distinct
         gen += res2.generated
         for c in ks:
